@@ -3,27 +3,64 @@
    observed on the real code, checked against the model by vm_compute. *)
 From Coq Require Import String List NArith ZArith Bool.
 From J5V.lib Require Import Outcome Corr.
-From J5V.model Require Import ReflectDesc ReflectSchema Reflect ReflectSpec ReflectCorr Export.
+From J5V.model Require Import ReflectDesc ReflectSchema Reflect ReflectSpec ReflectCorr Export ExportApi.
 Import ListNotations.
 Local Open Scope bool_scope.
 
-(* [first]/[second]: exported schemas keyed by (package incl. sub-package, name), any order *)
-Inductive c15case :=
-| C15Case (d : desc) (files : list str)
-          (cls_export : N) (first : list (ref * root))
-          (cls_import : N) (second : list (ref * root)).
+(* decidable equality of terms of the source-API form (transparent: evaluated by vm_compute) *)
+Definition xschema_dec : forall a b : xschema, {a = b} + {a <> b}.
+Proof. decide equality; apply ref_dec. Defined.
+Definition xfield_dec : forall a b : xfield, {a = b} + {a <> b}.
+Proof.
+  decide equality;
+    try apply bool_dec; try apply optN_dec; try apply xschema_dec; try apply sproto_dec;
+    try apply (list_eq_dec str_dec);
+    try (apply opt_dec; first [apply (pair_dec (list_eq_dec str_dec) (list_eq_dec str_dec))
+                              | apply (pair_dec optN_dec optN_dec)
+                              | apply (pair_dec (pair_dec optN_dec optN_dec) optb_dec)
+                              | apply optstr_dec]).
+Defined.
+Definition xprop_dec : forall a b : xprop, {a = b} + {a <> b}.
+Proof.
+  decide equality; try apply bool_dec; try apply str_dec; try apply xfield_dec; apply (list_eq_dec N.eq_dec).
+Defined.
+Definition xoption_dec : forall a b : xoption, {a = b} + {a <> b}.
+Proof. decide equality; try apply str_dec; try apply Z.eq_dec; apply info_dec. Defined.
+Definition xroot_dec : forall a b : xroot, {a = b} + {a <> b}.
+Proof.
+  decide equality; try apply str_dec; try apply (list_eq_dec xprop_dec); try apply (list_eq_dec str_dec);
+    try apply (list_eq_dec xoption_dec);
+    try apply (opt_dec (pair_dec str_dec N.eq_dec));
+    apply (list_eq_dec (pair_dec (pair_dec str_dec str_dec) str_dec)).
+Defined.
+Definition xroot_eqb (a b : xroot) : bool := if xroot_dec a b then true else false.
 
-Fixpoint assoc (l : list (ref * root)) (k : ref) : option root :=
+(* [wanted]: the packages the image names; [first]: the API as APIFromImage returned it (packages in
+   any order, schema maps in any order); [second]: the export of the re-imported set, keyed by
+   (package incl. sub-package, name), any order *)
+Inductive c15case :=
+| C15Case (d : desc) (wanted : list str)
+          (cls_export : N) (first : xapi)
+          (cls_import : N) (second : list (ref * xroot)).
+
+Fixpoint assoc (l : list (ref * xroot)) (k : ref) : option xroot :=
   match l with
   | [] => None
   | (k', r) :: rest => if ref_eqb k' k then Some r else assoc rest k
   end.
-Definition same_map (a b : list (ref * root)) : bool :=
+Definition same_map (a b : list (ref * xroot)) : bool :=
   Nat.eqb (length a) (length b) &&
-  forallb (fun kr => match assoc b (fst kr) with Some r => root_eqb r (snd kr) | None => false end) a.
+  forallb (fun kr => match assoc b (fst kr) with Some r => xroot_eqb r (snd kr) | None => false end) a.
 
-Definition files_of (D : desc) (paths : list str) : option (list filed) :=
-  fold_right (fun p acc => match find_file D p, acc with Some f, Some l => Some (f :: l) | _, _ => None end) (Some []) paths.
+(* package names with their indirect flag and sub-package names, as sets *)
+Definition strs_subset (a b : list str) : bool := forallb (fun x => existsb (str_eqb x) b) a.
+Definition shape_eqb (a b : str * bool * list str) : bool :=
+  str_eqb (fst (fst a)) (fst (fst b)) && Bool.eqb (snd (fst a)) (snd (fst b)) &&
+  strs_subset (snd a) (snd b) && strs_subset (snd b) (snd a).
+Definition same_shape (a b : list (str * bool * list str)) : bool :=
+  Nat.eqb (length a) (length b) && forallb (fun x => existsb (shape_eqb x) b) a.
+Definition same_api (a b : xapi) : bool :=
+  same_map (api_entries a) (api_entries b) && same_shape (api_shape a) (api_shape b).
 
 (* APIFromImage visits the included files in the (random) order of protoregistry.RangeFiles. A
    successful build does not depend on that order, but which failure is met first does: the observed
@@ -49,42 +86,39 @@ Definition orders {A} (l : list A) : list (list A) :=
   if Nat.leb (length l) 4 then perms l
   else let rs := rotations_from (length l) l in rs ++ map (@rev A) rs.
 
-Definition check_export (D : desc) (files : list str) (cls_export : N) (first : list (ref * root)) : bool :=
-  match files_of D files with
-  | None => false
-  | Some fs =>
-      (* vm_compute is call-by-value: branch explicitly so that the orders are only tried when needed *)
-      if match reflect D fs with
-         | Ok st =>
-             (* what the round-trip theorem assumes of a reflected set, checked on every case *)
-             keys_distinct st && set_importable st && set_closed st &&
-             match export_set st with
-             | Ok l => N.eqb cls_export 0 && same_map l first
-             | _ => false
-             end
+Definition check_export (D : desc) (wanted : list str) (cls_export : N) (first : xapi) : bool :=
+  let fs := selected D wanted in
+  (* vm_compute is call-by-value: branch explicitly so that the orders are only tried when needed *)
+  if match reflect D fs with
+     | Ok st =>
+         (* what the round-trip theorem assumes of a reflected set, checked on every case *)
+         keys_distinct st && set_importable st && set_closed st &&
+         match api_of_set wanted st with
+         | Ok api => N.eqb cls_export 0 && same_api api first
          | _ => false
          end
-      then true
-      else if N.eqb cls_export 0 then false
-      else existsb (fun p => N.eqb cls_export (cls (reflect D p))) (orders fs)
-  end.
+     | _ => false
+     end
+  then true
+  else if N.eqb cls_export 0 then false
+  else existsb (fun p => N.eqb cls_export (cls (api_from_image D wanted p))) (orders fs).
 
-Definition exported (st : sset) : list (ref * root) :=
+Definition exported (st : sset) : list (ref * xroot) :=
   match export_set st with Ok l => l | _ => [] end.
 
-Definition check_import (cls_export : N) (first : list (ref * root)) (cls_import : N) (second : list (ref * root)) : bool :=
+Definition check_import (cls_export : N) (first : xapi) (cls_import : N) (second : list (ref * xroot)) : bool :=
   if negb (N.eqb cls_export 0) then true
-  else match import_api first with
+  else match import_packages first with
        | ROk st => N.eqb cls_import 0 && same_map (exported st) second
        | RErr _ => N.eqb cls_import 1
        end.
 
 Definition c15_check (c : c15case) : bool :=
-  match c with C15Case D files ce first ci second =>
-    check_export D files ce first && check_import ce first ci second
+  match c with C15Case D wanted ce first ci second =>
+    check_export D wanted ce first && check_import ce first ci second
   end.
 
 Definition c15_failing (c : c15case) : list N :=
-  match c with C15Case D files ce first ci second =>
-    (if check_export D files ce first then [] else [0%N]) ++ (if check_import ce first ci second then [] else [1%N])
+  match c with C15Case D wanted ce first ci second =>
+    (if check_export D wanted ce first then [] else [0%N]) ++ (if check_import ce first ci second then [] else [1%N])
   end.
